@@ -26,6 +26,14 @@ import vcommon
 THEOREMS = [
     'AbacusVerif.Staging.returned_cols_permuted',
     'AbacusVerif.Staging.returned_cols_filled',
+    'AbacusVerif.Staging.returned_cols_single_source',
+    'AbacusVerif.Staging.part_cols_single_source',
+    'AbacusVerif.Staging.sources_as_documented',
+    'AbacusVerif.Staging.fill_is_concat',
+    'AbacusVerif.Staging.fill_is_concat_cols',
+    'AbacusVerif.Staging.eval_rowwise',
+    'AbacusVerif.Staging.argsort_stable',
+    'AbacusVerif.Staging.pinds_first_occurrence',
     'AbacusVerif.Staging.argsort_is_perm',
     'AbacusVerif.Staging.sort_rows_aligned',
     'AbacusVerif.Staging.staging_rows_aligned',
@@ -44,9 +52,10 @@ RULE = ('synthetic subsample file sets read by the real AbacusHOD.__init__/stagi
         'MT file naming via ELG/QSO/force_mt, secondary redshift, light cone, 1-D velocity deviates, optional rank fields); '
         'a case is non-trivial when at least 2 halos are loaded; distinct = distinct case dicts')
 TRUSTED = ['harness/stagegen.py: the synthetic h5/asdf writer and the injective dyadic id encodings (the files define what '
-           '"the halo\'s attributes" are); the mapping file field -> returned array used for the model input is the documented one '
-           '(x_L2com->hpos, v_L2com->hvel, N*Mpart->hmass, multi_halos, randoms, randoms_gaus_vrms|randoms_exp->hveldev, '
-           'sigmav3d_L2com, r98/r25->hc, r98->hrvir, deltac_rank, fenv_rank, shear_rank)',
+           '"the halo\'s attributes" are); the model is fed the dataset columns by field name and evaluates the source expressions '
+           'regenerated from staging() (Generated/StagingCols.lean haloSources / partSources); the *oracle* decodes each returned array '
+           'with the documented meaning (x_L2com->hpos, v_L2com->hvel, N*Mpart->hmass, multi_halos, randoms, '
+           'randoms_gaus_vrms|randoms_exp->hveldev, sigmav3d_L2com, r98/r25->hc, r98->hrvir, deltac_rank, fenv_rank, shear_rank)',
            'the ast translator of staging() in harness/props/c12.py (strict: any statement of the sort block it does not recognise breaks the tie)',
            'h5py, asdf; numpy argsort / searchsorted / fancy indexing / slice assignment modelled by specification',
            'halo ids are duplicate-free (numpy argsort is not stable; the property quantifies over duplicate-free ids)']
@@ -58,8 +67,6 @@ SRC = 'abacusnbody/hod/abacus_hod.py'
 GEN = vcommon.LEAN / 'AbacusVerif' / 'Generated' / 'StagingCols.lean'
 
 HALO_KEYS_BASE = ['hpos', 'hvel', 'hmass', 'hid', 'hmultis', 'hrandoms', 'hveldev', 'hsigma3d', 'hc', 'hrvir']
-ALL_HALO_COLS = ['hpos', 'hvel', 'hmass', 'hmultis', 'hrandoms', 'hveldev', 'hsigma3d', 'hc', 'hrvir',
-                 'hdeltac', 'hfenv', 'hshear']
 
 
 # =========================================================================== translator
@@ -90,8 +97,9 @@ def extract_tables(src_text):
     fn = next((n for n in cls.body if isinstance(n, ast.FunctionDef) and n.name == 'staging'), None)
     if fn is None:
         raise TieError('AbacusHOD.staging not found')
-    T = dict(allocated=[], filled=[], part_allocated=[], part_filled=[], returned=[], permuted=[], part_returned=[])
-    state = dict(sort_blocks=0, assert_after=False, pinds=None, sort_seen=False, rebinds=[])
+    T = dict(allocated=[], filled=[], part_allocated=[], part_filled=[], returned=[], permuted=[], part_returned=[],
+             part_defaults=[], notes=[])
+    state = dict(sort_blocks=0, assert_after=False, pinds=None, sort_seen=False, rebinds=[], pweights=None)
 
     def sort_block(stmts, cond, st):
         for s in stmts:
@@ -165,13 +173,18 @@ def extract_tables(src_text):
                         T['returned'].append((k.value, v.id, cond))
                     continue
                 if tgt.id == 'particle_data':
-                    if isinstance(val, ast.Dict):
-                        for k, v in zip(val.keys, val.values):
-                            if isinstance(k, ast.Constant) and isinstance(v, ast.Name):
-                                T['part_returned'].append((k.value, v.id, cond))
+                    if not isinstance(val, ast.Dict):
+                        raise TieError('particle_data is not a dict literal')
+                    for k, v in zip(val.keys, val.values):
+                        if not (isinstance(k, ast.Constant) and isinstance(v, ast.Name)):
+                            raise TieError('particle_data entry not `key: array`: ' + ast.unparse(val)[:200])
+                        T['part_returned'].append((k.value, v.id, cond))
                     continue
                 if tgt.id == 'pinds':
                     state['pinds'] = ast.unparse(val)
+                    continue
+                if tgt.id == 'pweights':
+                    state['pweights'] = ast.unparse(val)
                     continue
                 state['rebinds'].append((tgt.id, ast.unparse(s)[:120], state['sort_seen']))
                 continue
@@ -185,6 +198,10 @@ def extract_tables(src_text):
                 if base == 'particle_data':
                     if isinstance(tgt.slice, ast.Constant) and isinstance(val, ast.Name):
                         T['part_returned'].append((tgt.slice.value, val.id, cond))
+                    elif isinstance(tgt.slice, ast.Constant) and ast.unparse(val) == 'np.ones(Nparts_tot)':
+                        T['part_defaults'].append((tgt.slice.value, 'ones', cond))
+                    else:
+                        raise TieError('particle_data[...] assignment not understood: ' + ast.unparse(s)[:200])
                     continue
                 if isinstance(tgt.slice, ast.Slice) and tgt.slice.lower is not None:
                     lo = ast.unparse(tgt.slice.lower)
@@ -207,6 +224,9 @@ def extract_tables(src_text):
         raise TieError('`assert %s` after the sort block not found' % SORT_ASSERT)
     if state['pinds'] != '_searchsorted_parallel(hid, phid)':
         raise TieError('pinds = %r' % (state['pinds'],))
+    if state['pweights'] != '1 / pNp / psubsampling':
+        raise TieError('pweights = %r' % (state['pweights'],))
+    T.update(extract_sources(fn, T['notes']))
     # ticker increments
     incs = [ast.unparse(n) for n in ast.walk(fn) if isinstance(n, ast.AugAssign)]
     for want in ('halo_ticker += Nhalos[eslab - start]', 'parts_ticker += Nparts[eslab - start]'):
@@ -241,7 +261,7 @@ def extract_tables(src_text):
         for e in T[tab]:
             c = e[-1]
             if tab == 'part_filled' and c == 'want_ranks':
-                continue   # the rank arrays are modelled apart (defaults when the flag is off / a field is missing)
+                continue
             if c is not None:
                 if c.startswith('not '):
                     raise TieError('%s entry %r under a negated flag' % (tab, e))
@@ -249,6 +269,200 @@ def extract_tables(src_text):
                     flags.append(c)
     T['flags'] = flags
     return T
+
+
+ALWAYS = ('always',)
+
+
+def _guard_of(cond):
+    if cond is None:
+        return ALWAYS
+    if cond.startswith('not '):
+        return ('ifnot', cond[4:])
+    return ('if', cond)
+
+
+class Untranslatable(Exception):
+    pass
+
+
+VELDEV_1D_TEST = 'len(halo_vel_dev.shape) == 1'
+VELDEV_1D_STACK = 'np.stack((halo_vel_dev, halo_vel_dev, halo_vel_dev), axis=1)'
+PART_SECTION_TEST = "self.z_type == 'primary' or self.z_type == 'lightcone'"
+TABLE_VARS = {'maskedhalos': ('newfile', 'halos'), 'subsample': ('newpart', 'particles')}
+
+
+def extract_sources(fn, notes):
+    """the mapping "file field -> array" of the slab loop: for every array filled by `X[ticker : ...] = value`, the
+    expression over dataset columns that `value` denotes, with the flag it depends on.  Expressions it cannot
+    translate structurally are left out and noted (the caller reports them as a broken tie)."""
+    loops = [n for n in fn.body if isinstance(n, ast.For) and ast.unparse(n.iter) == 'range(start, end)']
+    fill_loops = [l for l in loops if any(isinstance(x, ast.Subscript) and isinstance(x.slice, ast.Slice) and x.slice.lower is not None
+                                          and ast.unparse(x.slice.lower) in ('halo_ticker', 'parts_ticker') for x in ast.walk(l))]
+    if len(fill_loops) != 1:
+        raise TieError('expected one slab fill loop `for eslab in range(start, end)`, found %d' % len(fill_loops))
+    env = {}
+    out = {'halo_sources': [], 'part_sources': [], 'veldev1d': 'absent', 'params': []}
+    # params['X'] = header['Y']
+    for n in fn.body:
+        if (isinstance(n, ast.Assign) and len(n.targets) == 1 and isinstance(n.targets[0], ast.Subscript)
+                and ast.unparse(n.targets[0].value) == 'params' and isinstance(n.targets[0].slice, ast.Constant)
+                and isinstance(n.value, ast.Subscript) and ast.unparse(n.value.value) == 'header' and isinstance(n.value.slice, ast.Constant)):
+            out['params'].append((n.targets[0].slice.value, n.value.slice.value))
+
+    def bind(name, src, guard):
+        if guard == ALWAYS:
+            env[name] = [(src, ALWAYS)]
+        else:
+            env[name] = [b for b in env.get(name, []) if b[1] != guard] + [(src, guard)]
+
+    def lookup(name, guard):
+        bs = env.get(name)
+        if not bs:
+            raise Untranslatable('name %s is not bound to dataset columns' % name)
+        spec = [b for b in bs if b[1] == guard and guard != ALWAYS]
+        if spec:
+            return spec[-1][0]
+        alw = [b for b in bs if b[1] == ALWAYS]
+        if alw and len(bs) == len(alw):
+            return alw[-1][0]
+        if alw and guard != ALWAYS and all(b[1] == ALWAYS or b[1][1] != guard[1] for b in bs):
+            return alw[-1][0]
+        raise Untranslatable('%s depends on a flag here' % name)
+
+    def to_src(e, guard):
+        if isinstance(e, ast.Subscript) and isinstance(e.value, ast.Name) and e.value.id in TABLE_VARS and isinstance(e.slice, ast.Constant) \
+                and isinstance(e.slice.value, str):
+            return ('field', e.slice.value)
+        if isinstance(e, ast.Call) and isinstance(e.func, ast.Attribute) and e.func.attr == 'astype' and len(e.args) == 1 \
+                and ast.unparse(e.args[0]) == 'int' and not e.keywords:
+            return ('asint', to_src(e.func.value, guard))
+        if isinstance(e, ast.BinOp) and isinstance(e.op, ast.Div):
+            return ('div', to_src(e.left, guard), to_src(e.right, guard))
+        if isinstance(e, ast.BinOp) and isinstance(e.op, ast.Mult):
+            for a, b in ((e.left, e.right), (e.right, e.left)):
+                if isinstance(b, ast.Subscript) and ast.unparse(b.value) == 'params' and isinstance(b.slice, ast.Constant):
+                    return ('mulParam', to_src(a, guard), b.slice.value)
+        if isinstance(e, ast.Name):
+            return lookup(e.id, guard)
+        raise Untranslatable(ast.unparse(e)[:160])
+
+    def resolve_fill(value, guard):
+        """[(src, guard)] for the value of a fill statement"""
+        if isinstance(value, ast.Name) and guard == ALWAYS:
+            bs = env.get(value.id)
+            if not bs:
+                raise Untranslatable('name %s is not bound to dataset columns' % value.id)
+            flagged = [b for b in bs if b[1] != ALWAYS]
+            alw = [b for b in bs if b[1] == ALWAYS]
+            if not flagged:
+                return [(alw[-1][0], ALWAYS)]
+            flags = {b[1][1] for b in flagged}
+            if len(flags) != 1:
+                raise Untranslatable('%s depends on several flags' % value.id)
+            f = flags.pop()
+            res = []
+            for g in (('if', f), ('ifnot', f)):
+                hit = [b for b in flagged if b[1] == g] or alw
+                if not hit:
+                    raise Untranslatable('%s is unbound when %s' % (value.id, g))
+                res.append((hit[-1][0], g))
+            return res
+        return [(to_src(value, guard), guard)]
+
+    def walk(stmts, guard):
+        for s in stmts:
+            if isinstance(s, (ast.Expr, ast.Assert, ast.AugAssign)):
+                continue
+            if isinstance(s, ast.If):
+                t = ast.unparse(s.test)
+                if _is_self_flag(s.test):
+                    if guard != ALWAYS and guard != ('if', s.test.attr):
+                        raise TieError('nested flag conditions in the slab loop: %s inside %s' % (t, guard))
+                    walk(s.body, ('if', s.test.attr))
+                    walk(s.orelse, ('ifnot', s.test.attr))
+                    continue
+                if t == VELDEV_1D_TEST:
+                    body = [x for x in s.body if not isinstance(x, ast.Expr)]
+                    if (len(body) == 1 and isinstance(body[0], ast.Assign) and ast.unparse(body[0].targets[0]) == 'halo_vel_dev'
+                            and ast.unparse(body[0].value) == VELDEV_1D_STACK and not s.orelse and guard == ALWAYS):
+                        out['veldev1d'] = 'stack-axis1'
+                    else:
+                        out['veldev1d'] = 'unknown'
+                        notes.append('1-D velocity-deviate branch not understood: ' + ' ; '.join(ast.unparse(x) for x in body)[:200])
+                    continue
+                if t == PART_SECTION_TEST and not s.orelse:
+                    walk(s.body, guard)
+                    continue
+                m = isinstance(s.test, ast.Compare) and len(s.test.ops) == 1 and isinstance(s.test.ops[0], ast.In) \
+                    and isinstance(s.test.left, ast.Constant) and ast.unparse(s.test.comparators[0]) == 'part_fields'
+                if m and len(s.body) == 1 and len(s.orelse) == 1 and isinstance(s.body[0], ast.Assign) and isinstance(s.orelse[0], ast.Assign):
+                    f = s.test.left.value
+                    tgt = ast.unparse(s.body[0].targets[0])
+                    if (ast.unparse(s.body[0].value) == "subsample['%s']" % f and ast.unparse(s.orelse[0].targets[0]) == tgt
+                            and ast.unparse(s.orelse[0].value) == 'np.zeros(len(subsample))'):
+                        bind(tgt, ('fieldOrZeros', f), guard)
+                        continue
+                if all(isinstance(x, ast.Assign) and ast.unparse(x.targets[0]) in ('halofilename', 'particlefilename')
+                       for x in s.body + s.orelse):
+                    continue    # the choice of file names (MT / non-MT)
+                raise TieError('branch of the slab loop not understood: if %s' % t[:160])
+            if isinstance(s, (ast.For, ast.While, ast.With)):
+                raise TieError('nested loop in the slab loop')
+            if not (isinstance(s, ast.Assign) and len(s.targets) == 1):
+                raise TieError('statement of the slab loop not understood: ' + ast.unparse(s)[:160])
+            tgt, val = s.targets[0], s.value
+            if isinstance(tgt, ast.Name):
+                if tgt.id in ('halofilename', 'particlefilename', 'part_fields'):
+                    continue
+                if tgt.id in ('newfile', 'newpart'):
+                    if not ast.unparse(val).startswith('h5py.File('):
+                        raise TieError('%s = %s' % (tgt.id, ast.unparse(val)[:120]))
+                    continue
+                if tgt.id in TABLE_VARS:
+                    if ast.unparse(val) != "%s['%s']" % TABLE_VARS[tgt.id]:
+                        raise TieError('%s = %s' % (tgt.id, ast.unparse(val)[:120]))
+                    continue
+                try:
+                    bind(tgt.id, to_src(val, guard), guard)
+                except Untranslatable as e:
+                    env.pop(tgt.id, None)
+                    notes.append('cannot translate `%s`: %s' % (ast.unparse(s)[:160], e))
+                continue
+            if isinstance(tgt, ast.Subscript) and isinstance(tgt.value, ast.Name) and isinstance(tgt.slice, ast.Slice) and tgt.slice.lower is not None:
+                lo = ast.unparse(tgt.slice.lower)
+                key = {'halo_ticker': 'halo_sources', 'parts_ticker': 'part_sources'}.get(lo)
+                if key is None:
+                    raise TieError('slice assignment not understood: ' + ast.unparse(s)[:160])
+                try:
+                    for (src, g) in resolve_fill(val, guard):
+                        out[key].append((tgt.value.id, src, g))
+                except Untranslatable as e:
+                    notes.append('no source expression for %s (`%s`): %s' % (tgt.value.id, ast.unparse(s)[:160], e))
+                continue
+            raise TieError('statement of the slab loop not understood: ' + ast.unparse(s)[:160])
+
+    walk(fill_loops[0].body, ALWAYS)
+    return out
+
+
+def _lean_src(src):
+    k = src[0]
+    if k == 'field':
+        return '(.field %s)' % _lean_str(src[1])
+    if k == 'fieldOrZeros':
+        return '(.fieldOrZeros %s)' % _lean_str(src[1])
+    if k == 'asint':
+        return '(.asInt %s)' % _lean_src(src[1])
+    if k == 'div':
+        return '(.div %s %s)' % (_lean_src(src[1]), _lean_src(src[2]))
+    if k == 'mulParam':
+        return '(.mulParam %s %s)' % (_lean_src(src[1]), _lean_str(src[2]))
+    raise ValueError(src)
+
+
+def _lean_guard(g):
+    return '.always' if g == ALWAYS else '(.ifFlag %s)' % _lean_str(g[1]) if g[0] == 'if' else '(.ifNot %s)' % _lean_str(g[1])
 
 
 def _lean_str(s):
@@ -263,14 +477,47 @@ def render_lean(T):
     def pairs(tab):
         return '[' + ',\n   '.join('(%s, %s)' % (_lean_str(v), _lean_opt(c)) for (v, c) in tab) + ']'
 
-    ret = '[' + ',\n   '.join('(%s, %s, %s)' % (_lean_str(k), _lean_str(v), _lean_opt(c)) for (k, v, c) in T['returned']) + ']'
-    part = [(v, c) for (v, c) in T['part_filled'] if c != 'want_ranks' and v != 'phid']
+    def triples(tab):
+        return '[' + ',\n   '.join('(%s, %s, %s)' % (_lean_str(k), _lean_str(v), _lean_opt(c)) for (k, v, c) in tab) + ']'
+
+    def triples_g(tab):
+        return '[' + ',\n   '.join('(%s, %s, %s)' % (_lean_str(k), _lean_str(v), _lean_guard(_guard_of(c))) for (k, v, c) in tab) + ']'
+
+    def sources(tab):
+        return '[' + ',\n   '.join('(%s, %s, %s)' % (_lean_str(v), _lean_src(src), _lean_guard(g)) for (v, src, g) in tab) + ']'
+
+    flags = list(T['flags'])
+    for tab in ('halo_sources', 'part_sources'):
+        for (_, _, g) in T[tab]:
+            if g != ALWAYS and g[1] not in flags:
+                flags.append(g[1])
+    for tab in ('part_returned', 'part_defaults'):
+        for e in T[tab]:
+            g = _guard_of(e[-1])
+            if g != ALWAYS and g[1] not in flags:
+                flags.append(g[1])
     return '''/-
   GENERATED by harness/props/c12.py `extract` from abacusnbody/hod/abacus_hod.py (AbacusHOD.staging,
   _searchsorted_parallel) of the current working tree, by parsing the source with Python's `ast`.
   Do not edit: regenerated on every run of `./check C12`.
 -/
 namespace AbacusVerif.Generated.StagingCols
+
+/-- an expression over the columns of one slab dataset (`maskedhalos[...]` / `subsample[...]`) -/
+inductive Src where
+  | field (name : String)                    -- `table['name']`
+  | asInt (a : Src)                          -- `a.astype(int)`
+  | div (a b : Src)                          -- `a / b`
+  | mulParam (a : Src) (param : String)      -- `a * params['param']`
+  | fieldOrZeros (name : String)             -- `table['name'] if 'name' in part_fields else np.zeros(len(table))`
+  deriving DecidableEq, Repr
+
+/-- the `self.want_*` flag a statement depends on -/
+inductive Guard where
+  | always
+  | ifFlag (flag : String)
+  | ifNot (flag : String)
+  deriving DecidableEq, Repr
 
 /-- every entry of the returned `halo_data`: (key, local array, guarding `self.want_*` flag) -/
 def returned : List (String × String × Option String) :=
@@ -288,12 +535,44 @@ def allocated : List (String × Option String) :=
 def filled : List (String × Option String) :=
   %s
 
-/-- per-particle arrays filled slab by slab (rank arrays and `phid` apart) -/
-def partFilled : List (String × Option String) :=
+/-- what each per-halo array is filled from: (array, expression over the columns of the slab's `halos`
+dataset, flag) — one entry per fill statement and flag value -/
+def haloSources : List (String × Src × Guard) :=
   %s
+
+/-- per-particle arrays allocated with `np.empty(… Nparts_tot …)` -/
+def partAllocated : List (String × Option String) :=
+  %s
+
+/-- what each per-particle array is filled from (columns of the slab's `particles` dataset) -/
+def partSources : List (String × Src × Guard) :=
+  %s
+
+/-- every entry of the returned `particle_data` that is a local array: (key, local array, flag)
+(`pweights = 1 / pNp / psubsampling` and `pinds = _searchsorted_parallel(hid, phid)` are derived arrays) -/
+def partReturned : List (String × String × Guard) :=
+  %s
+
+/-- entries of `particle_data` that are constants: (key, "ones" for `np.ones(Nparts_tot)`, flag) -/
+def partDefaults : List (String × String × Guard) :=
+  %s
+
+/-- `params[...] = header[...]` -/
+def paramHeader : List (String × String) := [%s]
+
+/-- what is done with a 1-D velocity-deviate column: "stack-axis1" for `np.stack((v, v, v), axis=1)` -/
+def velDev1d : String := %s
 
 /-- the flags that guard any of the above -/
 def flagNames : List String := [%s]
+
+/-- all subsets of a list of flags -/
+def subsets : List String → List (List String)
+  | [] => [[]]
+  | f :: fs => subsets fs ++ (subsets fs).map (f :: ·)
+
+/-- every flag set -/
+def flagSets : List (List String) := subsets flagNames
 
 /-- `sortind = np.argsort(<sortKey>)`, guard and assert `np.all(hid[:-1] <= hid[1:])` -/
 def sortKey : String := %s
@@ -306,22 +585,27 @@ def active (flags : List String) (c : Option String) : Bool :=
   | none => true
   | some f => flags.contains f
 
+def guardActive (flags : List String) : Guard → Bool
+  | .always => true
+  | .ifFlag f => flags.contains f
+  | .ifNot f => !(flags.contains f)
+
 def returnedVars (flags : List String) : List String :=
   (returned.filter (fun e => active flags e.2.2)).map (·.2.1)
 
 def permutedVars (flags : List String) : List String :=
   (permuted.filter (fun e => active flags e.2)).map (·.1)
 
-def filledVars (flags : List String) : List String :=
-  ((filled.filter (fun e => active flags e.2)).map (·.1)).filter
-    (fun v => (allocated.filter (fun e => active flags e.2)).any (·.1 == v))
-
-def partVars (flags : List String) : List String :=
-  (partFilled.filter (fun e => active flags e.2)).map (·.1)
+/-- the source expressions of array `v` under a flag set (the property needs exactly one) -/
+def sourcesOf (tab : List (String × Src × Guard)) (flags : List String) (v : String) : List Src :=
+  (tab.filter (fun e => e.1 == v && guardActive flags e.2.2)).map (·.2.1)
 
 end AbacusVerif.Generated.StagingCols
-''' % (ret, pairs(T['permuted']), pairs(T['allocated']), pairs(T['filled']), pairs(part),
-       ', '.join(_lean_str(f) for f in T['flags']), _lean_str(T['sort_key']), _lean_str(T['search_side']))
+''' % (triples(T['returned']), pairs(T['permuted']), pairs(T['allocated']), pairs(T['filled']),
+       sources(T['halo_sources']), pairs(T['part_allocated']), sources(T['part_sources']),
+       triples_g(T['part_returned']), triples_g(T['part_defaults']),
+       ', '.join('(%s, %s)' % (_lean_str(a), _lean_str(b)) for (a, b) in T['params']),
+       _lean_str(T['veldev1d']), ', '.join(_lean_str(f) for f in flags), _lean_str(T['sort_key']), _lean_str(T['search_side']))
 
 
 _TABLES = {}
@@ -345,7 +629,20 @@ def extract(ctx):
                 ctx.tie('staging-translator', 'halo_data[%r] = %s is not %s under flag %s' % (k, v, tab, c))
         if k != v:
             ctx.count('translator:key!=var')
+    # what the translator could not turn into a source expression
+    for note in T['notes']:
+        ctx.tie('staging-translator', note)
+    if T['veldev1d'] != 'stack-axis1':
+        ctx.tie('staging-translator', '1-D velocity-deviate branch is %r, the model mirrors np.stack((v, v, v), axis=1)' % T['veldev1d'])
+    for tab, ret in (('halo_sources', [(v, _guard_of(c)) for (_, v, c) in T['returned']]),
+                     ('part_sources', [(v, _guard_of(c)) for (_, v, c) in T['part_returned'] if v not in ('pweights', 'pinds')]
+                      + [('pNp', ALWAYS), ('psubsampling', ALWAYS)])):
+        for (v, g) in ret:
+            srcs = [(src, sg_) for (v2, src, sg_) in T[tab] if v2 == v]
+            if not srcs:
+                ctx.tie('staging-translator', 'no source expression for returned array %s' % v)
     text = render_lean(T)
+    _TABLES['text'] = text
     if not GEN.exists() or GEN.read_text() != text:
         GEN.write_text(text)
         ctx.count('translator:regenerated')
@@ -427,41 +724,54 @@ def fmt_ids(ids):
     return ','.join(str(int(i)) for i in ids) if len(ids) else '-'
 
 
+def param_values():
+    """`params[...]` values the source expressions use, through the generated `params[X] = header[Y]` table"""
+    T = _TABLES.get('T')
+    pairs = T['params'] if T else [('Mpart', 'ParticleMassHMsun'), ('Lbox', 'BoxSize')]
+    return [(p, sg.HEADER[h]) for (p, h) in pairs if h in sg.HEADER]
+
+
+PART_RANK_FIELDS = ['ranks', 'ranksv', 'ranksp', 'ranksr', 'ranksc']
+
+
 def model_line(case):
+    """the request for the model: the *dataset columns* of every slab file, named by field"""
     fl = flags_of(case)
     load_parts = case.get('ztype', 'primary') != 'secondary'
     toks = ['staging', 'nfiles=%d' % (1 if case.get('ztype') == 'lightcone' else case['nfiles']),
             'nchunks=%d' % case.get('n_chunks', 1), 'chunk=%d' % case.get('chunk', -1),
             'flags=%s' % (','.join(fl) if fl else '-'), 'parts=%d' % int(load_parts),
-            'veldev1d=%d' % int(bool(case.get('veldev1d'))), 'unit=%d' % sg.UNIT]
+            'veldev1d=%d' % int(bool(case.get('veldev1d'))), 'unit=%d' % sg.UNIT,
+            'params=%s' % ','.join('%s:%d' % (k, sg.to_units(np.array([v]))[0][0]) for k, v in param_values())]
     for slab in case['slabs']:
         toks += ['slab', 'hid', fmt_ids(slab['ids'])]
-        hc = sg.halo_columns(slab['ids'], bool(case.get('expvel')), bool(case.get('veldev1d')))
-        for name in ALL_HALO_COLS:
-            toks += ['col', name, fmt_col(sg.to_units(hc[name]))]
+        hf = sg.halo_fields(slab['ids'], bool(case.get('veldev1d')))
+        for name, col in hf.items():
+            if name != 'id':
+                toks += ['col', name, fmt_col(sg.to_units(col))]
         parts = slab.get('parts', []) if load_parts else []
         toks += ['phid', fmt_ids([p[1] for p in parts])]
         if load_parts:
-            pc = sg.part_columns(parts)
-            present = set(sg.PART_SOURCE) - {'pranks', 'pranksv', 'pranksp', 'pranksr', 'pranksc'}
-            if case.get('ranks'):
-                present |= {'pranks', 'pranksv'} | {'p' + r for r in case.get('rankfields', [])}
-            for name in sg.PART_SOURCE:
-                if name in present:
-                    toks += ['pcol', name, fmt_col(sg.to_units(pc[name]))]
+            pf = sg.part_fields(parts)
+            for name, col in pf.items():
+                if name == 'halo_id':
+                    continue
+                if name in PART_RANK_FIELDS and not (case.get('ranks') and (name in ('ranks', 'ranksv') or name in case.get('rankfields', []))):
+                    continue      # not in the file
+                toks += ['pcol', name, fmt_col(sg.to_units(col))]
     return ' '.join(toks)
 
 
 def parse_col(s):
     if s == '-':
         return []
-    return [[int(x) for x in v.split(':')] for v in s.split(',')]
+    return [[(int(x) if '/' not in x else x) for x in v.split(':')] for v in s.split(',')]
 
 
 def parse_model(s):
     if s.startswith('err ') or s == 'bad-op':
         return {'err': s}
-    out = {'halo': {}, 'part': {}}
+    out = {'halo': {}, 'part': {}, 'aux': {}}
     for tok in s.split(' ')[1:]:
         if not tok:
             continue
@@ -474,6 +784,8 @@ def parse_model(s):
             out['halo'][k[2:]] = parse_col(v)
         elif k.startswith('p:'):
             out['part'][k[2:]] = parse_col(v)
+        elif k.startswith('aux:'):
+            out['aux'][k[4:]] = parse_col(v)
     return out
 
 
@@ -507,9 +819,18 @@ def compare(ctx, case, m, res, label):
         ctx.disagree('staging[%s] returned a value that no input encodes (%s)' % (label, e), case, 'exact', 'inexact')
         return
     mm = {'numslabs': m['numslabs'], 'hid': m['hid'], 'phid': m['phid'], 'pinds': m['pinds'], 'halo': m['halo'],
-          'part': {k: v for k, v in m['part'].items() if k not in ('pNp', 'psubsampling')}}
-    np_, ps_ = m['part'].get('pNp', []), m['part'].get('psubsampling', [])
-    mm['pweights'] = [Fraction(sg.UNIT, a[0]) * Fraction(sg.UNIT, b[0]) for a, b in zip(np_, ps_)]
+          'part': m['part']}
+    # pweights = 1 / pNp / psubsampling, from the model's filled (not returned) arrays
+    np_, ps_ = m['aux'].get('pNp'), m['aux'].get('psubsampling')
+    if np_ is None or ps_ is None:
+        ctx.disagree('staging[%s] the model has no pNp / psubsampling arrays' % label, case, sorted(m['aux']), 'pweights')
+        return
+    try:
+        mm['pweights'] = [Fraction(sg.UNIT, a[0]) * Fraction(sg.UNIT, b[0]) for a, b in zip(np_, ps_)]
+    except (TypeError, ZeroDivisionError):
+        mm['pweights'] = 'inexact'
+    if sorted(m['aux']) != ['pNp', 'psubsampling']:
+        ctx.disagree('staging[%s] arrays filled but not returned' % label, case, sorted(m['aux']), ['pNp', 'psubsampling'])
     for k in ('numslabs', 'hid', 'phid', 'pinds', 'pweights'):
         if mm[k] != im.get(k):
             ctx.disagree('staging[%s] %s' % (label, k), case, str(mm[k])[:300], str(im.get(k))[:300])
@@ -785,7 +1106,29 @@ def check_cases(ctx, cases, label='staging', full=False):
             ctx.traces_validated += 1
 
 
+def ensure_generated(ctx):
+    """vcommon restores the committed Generated/ directory after every scratch-tree run of ANY check, also while this
+    run sits between its extract() and its lake build.  If the table on disk is no longer the one this run generated,
+    write it again and redo the Lean build + audit + driver build; give up (infrastructure, not a verdict) after 4 tries."""
+    text = _TABLES.get('text')
+    if text is None:
+        return
+    for attempt in range(4):
+        if GEN.exists() and GEN.read_text() == text:
+            return
+        ctx.count('generated-table-restored-by-concurrent-run')
+        GEN.write_text(text)
+        vcommon.lean_obligations(ctx, ctx.modules, ctx.theorems)
+        ctx.driver = vcommon.Driver(DRIVER)
+        ctx.tie_broken = [t for t in ctx.tie_broken if t['what'] != 'driver-build']
+        if ctx.driver.error:
+            ctx.tie('driver-build', ctx.driver.error)
+    if not (GEN.exists() and GEN.read_text() == text):
+        raise vcommon.Infra('Generated/StagingCols.lean keeps being modified by concurrent runs; re-run')
+
+
 def run(ctx):
+    ensure_generated(ctx)
     cases = corpus_cases()
     ctx.count('corpus', len(cases))
     cases += exhaustive_cases(ctx)
